@@ -148,10 +148,11 @@ pub fn run(seed: u64, count: usize, thorough: bool, out: &mut Out) {
     }
     // random long histories over a larger alphabet
     let mut rng = Rng::new(seed);
-    let big_chains = ["A", " A", "A ", "a", "B", "bb", "B2", "\tA"];
-    let big_icodes = [None, None, some("a"), some("A"), some(" b"), some("B"), some("xy")];
-    let big_names = ["ala", "ALA", "Ala ", " gly", "GLY", "hoh", "X"];
-    let big_alts = [None, None, some("a"), some("A"), some(" "), some("b "), some("B"), some("ab"), some("")];
+    let big_chains = ["A", " A", "A ", "a", "B", "bb", "B2", "\tA", "b", "B22"];
+    // identifiers of several characters, some of them the beginning of another (a comparison must not stop at the shorter one)
+    let big_icodes = [None, None, some("a"), some("A"), some(" b"), some("B"), some("xy"), some("ab"), some("ABC"), some("x"), some("XYZ ")];
+    let big_names = ["ala", "ALA", "Ala ", " gly", "GLY", "hoh", "X", "AL", "alan", "XY"];
+    let big_alts = [None, None, some("a"), some("A"), some(" "), some("b "), some("B"), some("ab"), some(""), some("ABC"), some("bc")];
     for _ in 0..count {
         let long = rng.chance(1, 4);
         let len = 1 + rng.below(if long { 200 } else { 24 });
